@@ -6,7 +6,7 @@ c_MaxNodes == 4
 c_OpSet == {"polydiff", "polyprod", "sum"}
 c_LogLeaves == FALSE
 c_EmitMod == 8
-c_EmitRes == 1
+c_EmitRes == 0
 c_LeafKinds == {"const", "ref", "tensor"}
 c_PosLeaves == FALSE
 ====
